@@ -380,7 +380,9 @@ pub fn run(sc: &Scenario) -> Outcome {
             // and the clock of every registered host", so every clause below
             // is asserted for this step too and the driver keeps stepping.
             let msg = e.to_string();
-            if sc.sim_duration_us.is_none() || !msg.starts_with("Ran for duration") || want <= duration {
+            // (no software of this workload ever returns Err, so the error is recognised by the
+            // situation, not by its wording, which the property does not fix)
+            if sc.sim_duration_us.is_none() || want <= duration {
                 out.fail(
                     "step-error",
                     format!("step {k} (sim time {want:?}, simulation_duration {duration:?}) returned error {msg}"),
